@@ -12,7 +12,9 @@
 \*
 \* A case is a damaged image of the pristine file: truncated to `trunc` bytes (-1: not truncated), extended by
 \* `ext` junk bytes, header word `hdr` changed (0: none), size fields overwritten (sz), reference entries
-\* overwritten (rf), `ty`: some enum/type field overwritten (content the specification does not interpret);
+\* overwritten (rf), entries of range-length arrays overwritten (nf), start address / factors of extents such as
+\* a height field's nrow, ncol overwritten (xf), `ty`: some enum/type field overwritten (content the specification
+\* does not interpret);
 \* `fit` / `exact`: the derived size fields / the file length were made consistent with the damaged sizes.
 \* The loader is a sequence of phases; each phase that reads checks first that the bytes are there.
 \*   (Prepare: the damaged file) -> ReadHeader -> ReadSizes -> Make -> CheckNbuffer -> SetSizes -> ReadStructs
@@ -75,12 +77,37 @@ OthersWild == ~Case.fit /\ \E i \in 1..NS : Schema.sizes[i].cls \in {"map", "nbu
 RefVal(r, k) == IF \E j \in 1..Len(Case.rf) : Case.rf[j].r = r /\ Case.rf[j].k = k
                 THEN Case.rf[CHOOSE j \in 1..Len(Case.rf) : Case.rf[j].r = r /\ Case.rf[j].k = k].v
                 ELSE Schema.refs[r].vals[k]
-RefNum(r, k) == IF Len(Schema.refs[r].nums) = 0 THEN 1 ELSE Schema.refs[r].nums[k]
+\* length of the range that starts at entry k (1 for plain ids); Case.nf overwrites entries of the length array
+RefNum(r, k) == IF Len(Schema.refs[r].nums) = 0 THEN 1
+                ELSE IF \E j \in 1..Len(Case.nf) : Case.nf[j].r = r /\ Case.nf[j].k = k
+                THEN Case.nf[CHOOSE j \in 1..Len(Case.nf) : Case.nf[j].r = r /\ Case.nf[j].k = k].v
+                ELSE Schema.refs[r].nums[k]
 \* -1 means "none": legal where the field is optional, and for the start address of an empty range
 InBounds(v, num, tgt, opt) == \/ v = -1 /\ (opt \/ num = 0)
                               \/ v >= 0 /\ num >= 0 /\ v <= tgt - num       \* (not v + num <= tgt: that sum overflows near INT_MAX)
 RefsInBounds(S) == \A r \in 1..Len(Schema.refs) : \A k \in 1..Len(Schema.refs[r].vals) :
                       InBounds(RefVal(r, k), RefNum(r, k), S[Schema.refs[r].tgt], Schema.refs[r].opt)
+
+\* ---- extents: adr + f1 * f2 * ... <= target size (height-field samples nrow * ncol, texture bytes
+\* nchannel * height * width, sensor outputs adr + dim).  The values come from 32-bit fields of the file, their
+\* products and sums do not fit 32 bits in general (TLC's integers, like C's int, are 32-bit): the bound is
+\* therefore decided by exact integer reasoning, dividing the room that is left instead of multiplying:
+\*     f1 * ... * fn <= room   <=>   some fi = 0  \/  floor(...floor(floor(room / f1) / f2).../ fn) >= 1     (fi > 0)
+\* Case.xf overwrites the start address (j = 0) or factor j of extent x.
+ExtVal(x, j) == IF \E q \in 1..Len(Case.xf) : Case.xf[q].x = x /\ Case.xf[q].j = j
+                THEN Case.xf[CHOOSE q \in 1..Len(Case.xf) : Case.xf[q].x = x /\ Case.xf[q].j = j].v
+                ELSE IF j = 0 THEN Schema.exts[x].adr ELSE Schema.exts[x].f[j]
+ProductFits(fs, room) == \/ \E j \in 1..Len(fs) : fs[j] = 0
+                         \/ FoldLeft(LAMBDA rem, f : rem \div f, room, fs) >= 1
+\* (a target size overwritten with a value beyond 32 bits: "huge" leaves room for everything, "neg" for nothing)
+ExtentOK(x, S) == LET adr == ExtVal(x, 0)
+                      fs  == [j \in 1..Len(Schema.exts[x].f) |-> ExtVal(x, j)]
+                      tgt == S[Schema.exts[x].tgt]
+                      tk  == FileSize(Schema.exts[x].tgt).k IN
+                  /\ adr >= 0 /\ \A j \in 1..Len(fs) : fs[j] >= 0
+                  /\ tk # "neg"
+                  /\ tk = "huge" \/ (adr <= tgt /\ ProductFits(fs, tgt - adr))
+ExtentsInBounds(S) == \A x \in 1..Len(Schema.exts) : ExtentOK(x, S)
 
 \* ---- the loader -------------------------------------------------------------------------------------------
 Init == /\ c = 0 /\ f_raw = << >> /\ f_bad = FALSE /\ f_alloc = << >> /\ f_nbuf = 0 /\ f_vals = << >> /\ f_rsz = << >>
@@ -180,7 +207,9 @@ Interpretable == Unshifted /\ ~Case.ty
 Validate ==
   /\ phase = "Validate"
   /\ IF Interpretable
-     THEN IF RefsInBounds(f_rsz) THEN Accept ELSE Reject("reference-out-of-bounds")
+     THEN IF ~RefsInBounds(f_rsz) THEN Reject("reference-out-of-bounds")
+          ELSE IF ~ExtentsInBounds(f_rsz) THEN Reject("extent-out-of-bounds")
+          ELSE Accept
      ELSE \* arrays moved or an uninterpreted field changed: the validator sees other content; either verdict
           Accept \/ Reject("validation")
 
@@ -207,11 +236,17 @@ RejectWarns   == res = "null" => warned
 \* an accepted file was consumed exactly by a model whose buffer size is the one the file states
 AcceptExact   == res = "ok" => (pos = FileLen /\ ~f_bad /\ f_nbuf = f_vals[Schema.inbuf])
 \* its interpretable cross-references are in bounds
-AcceptSound   == (res = "ok" /\ Interpretable) => RefsInBounds(f_rsz)
+AcceptSound   == (res = "ok" /\ Interpretable) => (RefsInBounds(f_rsz) /\ ExtentsInBounds(f_rsz))
+\* the division rule for products agrees with plain multiplication wherever that cannot overflow
+ProductRuleAgrees ==
+  phase = "Validate" => \A x \in 1..Len(Schema.exts) :
+    LET fs == [j \in 1..Len(Schema.exts[x].f) |-> ExtVal(x, j)] IN
+      (\A j \in 1..Len(fs) : fs[j] >= 0 /\ fs[j] < 1000) =>
+        \A room \in 0..12 : ProductFits(fs, room) <=> (FoldLeft(LAMBDA acc, f : acc * f, 1, fs) <= room)
 \* with the size fields intact only a file of exactly the original length is accepted (every truncation and every
 \* extension is rejected); the undamaged file is accepted
 TruncatedRejected == (res = "ok" /\ Len(Case.sz) = 0) => FileLen = PristineLen
-Undamaged(k) == k.trunc < 0 /\ k.ext = 0 /\ k.hdr = 0 /\ Len(k.sz) = 0 /\ Len(k.rf) = 0 /\ ~k.ty
+Undamaged(k) == k.trunc < 0 /\ k.ext = 0 /\ k.hdr = 0 /\ Len(k.sz) = 0 /\ Len(k.rf) = 0 /\ Len(k.nf) = 0 /\ Len(k.xf) = 0 /\ ~k.ty
 PristineAccepted == (phase \in {"Done", "Reported"} /\ Undamaged(Case)) => res = "ok"
 
 \* ---- miniature format for exhaustive checking ------------------------------------------------------------------
@@ -234,12 +269,20 @@ MC_Schema == [hdr |-> 20, structs |-> 12, mapmul |-> 2, mapsrc |-> <<1, 2>>, pva
               arrays |-> MC_Arrays,
               refs |-> << [arr |-> 1, tgt |-> 2, opt |-> FALSE, vals |-> <<0, 2>>, nums |-> << >>],
                           [arr |-> 3, tgt |-> 2, opt |-> FALSE, vals |-> <<0, -1>>, nums |-> <<2, 0>>],
-                          [arr |-> 8, tgt |-> 1, opt |-> TRUE, vals |-> <<-1, 1, 0>>, nums |-> << >>] >>]
+                          [arr |-> 8, tgt |-> 1, opt |-> TRUE, vals |-> <<-1, 1, 0>>, nums |-> << >>] >>,
+              \* extents: 0 + 1 * 3 <= nB (a 1 x 3 grid in B), 1 + 2 <= nD
+              exts |-> << [tgt |-> 2, adr |-> 0, f |-> <<1, 3>>], [tgt |-> 5, adr |-> 1, f |-> <<2>>] >>]
 MC_Len == 20 + 48 + 12 + (8 + 72 + 8 + 8 + 16 + 6 + 40 + 12)
-Dmg(t, e, h, s, r, y, f) == [trunc |-> t, ext |-> e, hdr |-> h, sz |-> s, rf |-> r, ty |-> y, fit |-> f, exact |-> FALSE]
+Dmg(t, e, h, s, r, y, f) == [trunc |-> t, ext |-> e, hdr |-> h, sz |-> s, rf |-> r, nf |-> << >>, xf |-> << >>, ty |-> y, fit |-> f,
+                             exact |-> FALSE]
 MC_SzMuts == {<<[i |-> i, k |-> "val", v |-> v]>> : i \in 1..6, v \in {-1, 0, 1, 2, 3, 4, 9, 10, 11, 12, 523, 524, 588}}
              \cup {<<[i |-> i, k |-> k, v |-> 0]>> : i \in 1..6, k \in {"neg", "huge"}}
 MC_RfMuts == {<<[r |-> r, k |-> k, v |-> v]>> : r \in 1..3, k \in 1..2, v \in {-2, -1, 0, 1, 2, 3, 4}}
+\* values whose 32-bit products / sums with their neighbours wrap: 0x40000001, 0x55555556 (* 3 = 2^32 + 2), INT_MAX,
+\* 0x80000003 as a signed word
+MC_Wrap   == {-2147483645, -1, 0, 1, 2, 3, 4, 1073741825, 1431655766, 2147483647}
+MC_XfMuts == {<<[x |-> x, j |-> j, v |-> v]>> : x \in 1..2, j \in 0..2, v \in MC_Wrap} \ {<<[x |-> 2, j |-> 2, v |-> v]>> : v \in MC_Wrap}
+MC_NfMuts == {<<[r |-> 2, k |-> k, v |-> v]>> : k \in 1..2, v \in MC_Wrap}
 MC_Exts   == {0, 4, 64}
 \* every truncation length, extensions
 MC_LenCases == {Dmg(t, 0, 0, << >>, << >>, FALSE, FALSE) : t \in 0..MC_Len}
@@ -261,6 +304,11 @@ MC_TruncSz  == {Dmg(t, 0, 0, <<[i |-> i, k |-> "val", v |-> MC_SizesNoBuf[i].val
 MC_Exact    == {[Dmg(-1, 0, 0, <<[i |-> i, k |-> "val", v |-> MC_SizesNoBuf[i].val + d]>>, r, y, f) EXCEPT !.exact = TRUE] :
                   i \in 1..5, d \in {-1, 1, 2}, f \in BOOLEAN, y \in BOOLEAN,
                   r \in {<< >>, <<[r |-> 1, k |-> 1, v |-> 3]>>, <<[r |-> 3, k |-> 2, v |-> 2]>>}}
-MC_All == MC_LenCases \cup MC_OneCases \cup MC_FitCases \cup MC_TruncSz \cup MC_Exact
+\* range lengths and extents overwritten with wrapping values, alone and together with a reference entry
+MC_WrapCases == {[Dmg(-1, 0, 0, << >>, r, FALSE, FALSE) EXCEPT !.xf = x] :
+                   x \in MC_XfMuts, r \in {<< >>, <<[r |-> 2, k |-> 1, v |-> 1]>>}}
+                \cup {[Dmg(-1, 0, 0, << >>, r, FALSE, FALSE) EXCEPT !.nf = n] :
+                   n \in MC_NfMuts, r \in {<< >>, <<[r |-> 2, k |-> 1, v |-> 1]>>, <<[r |-> 2, k |-> 2, v |-> 2147483647]>>}}
+MC_All == MC_LenCases \cup MC_OneCases \cup MC_FitCases \cup MC_TruncSz \cup MC_Exact \cup MC_WrapCases
 MC_CaseOf(k) == k
 =============================================================================
